@@ -26,6 +26,11 @@ CLAIMED = {
   text="seeded search over (event kind x opcode boundary x program) schedules in child processes; every run is one tape",
   note="opcode boundaries and call-outs only, not arbitrary instructions; upstream's own exemption before `save` opcodes; the C10 flavour adds one call per opcode to the generated code; background-cycle timing is the runtime's",
   ref="DESIGN.md 3 (C10)"),
+ "C06": dict(
+  technique="deterministic simulation of the caller's side of ownership: seeded call histories over seeded pools that poison spare capacity on Put, caller buffers whose capacity ends at a PROT_NONE guard page or canaries, the caller scribbling over its inputs after each call; snapshot comparison of every result after every step; buffer-size and pool-limit knobs",
+  text="seeded search over histories x buffer geometry x pool decisions x knobs; one history = one tape; crashes at the guard page are attributed to the run and replayed from a pre-generated tape",
+  note="single client (concurrent recycling is covered by C08's poisoning pools); only the stated direction (sonic must not touch caller-owned bytes) is checked",
+  ref="DESIGN.md 3 (C06)"),
  "C09": dict(
   technique="deterministic simulation of process-global state through seeded call histories: program-cache capacity knob (rehash/wrap-around with a handful of types), compile-option knobs, seeded permutation of every Go map iteration in the compile and batch-load paths, seeded pool decisions, same-named distinct types; oracle = encoding/json + arbitration by the same call with emptied caches",
   text="seeded search over histories x knobs; one history = one tape, minimised and replayed in a fresh process",
